@@ -10,6 +10,7 @@ import (
 	"fmt"
 	"os"
 	"os/exec"
+	"strings"
 	"testing"
 
 	"github.com/tjfoc/gmsm/sm4"
@@ -408,28 +409,62 @@ func TestC05_KeyBufferReuse(t *testing.T) {
 }
 
 func TestC05_KeyLengths(t *testing.T) {
-	for n := 0; n <= 64; n++ {
-		key := make([]byte, n)
-		gen.Fill(key, uint64(n)+uint64(hx.Seed()))
-		var c cipher.Block
-		var err error
-		p := hx.Try(func() { c, err = sm4.NewCipher(key) })
-		if p != nil {
-			t.Fatalf("NewCipher(len %d) panicked: %v", n, p.Val)
-		}
-		if n == 16 {
-			if err != nil || c == nil {
-				t.Fatalf("NewCipher(len 16) rejected: %v", err)
-			}
-			R.Case(true, hx.HashKey("keylen", n), "goodkeylen")
-			continue
-		}
-		if err == nil || c != nil {
-			t.Fatalf("NewCipher accepted a %d-byte key (err=%v, block=%v)", n, err, c)
-		}
-		R.Case(true, hx.HashKey("keylen", n), "badkeylen")
+	// every length 0..64 with several kinds of content: a key is 16 BYTES whatever the bytes are - not its hexadecimal,
+	// base64 or otherwise printable spelling
+	fills := map[string]func(n int) []byte{
+		"pattern": func(n int) []byte { k := make([]byte, n); gen.Fill(k, uint64(n)+uint64(hx.Seed())); return k },
+		"zeros":   func(n int) []byte { return make([]byte, n) },
+		"ff":      func(n int) []byte { return bytes.Repeat([]byte{0xff}, n) },
+		"hex_lower": func(n int) []byte {
+			return []byte(strings.Repeat("0123456789abcdeffedcba9876543210", 3)[:n])
+		},
+		"hex_upper": func(n int) []byte {
+			return []byte(strings.Repeat("0123456789ABCDEFFEDCBA9876543210", 3)[:n])
+		},
+		"base64": func(n int) []byte { return []byte(strings.Repeat("ASNFZ4mrze/+3LqYdlQyEA==", 3)[:n]) },
+		"digits": func(n int) []byte { return []byte(strings.Repeat("0123456789", 7)[:n]) },
 	}
-	R.Subspace("key lengths 0..64", 65, true)
+	var cnt int64
+	for name, fill := range fills {
+		for n := 0; n <= 64; n++ {
+			key := fill(n)
+			var c cipher.Block
+			var err error
+			p := hx.Try(func() { c, err = sm4.NewCipher(key) })
+			if p != nil {
+				t.Fatalf("NewCipher(len %d, %s) panicked: %v", n, name, p.Val)
+			}
+			cnt++
+			if n == 16 {
+				if err != nil || c == nil {
+					t.Fatalf("NewCipher(len 16, %s) rejected: %v", name, err)
+				}
+				want, got := make([]byte, 16), make([]byte, 16)
+				rsm4.Must(key).Encrypt(want, key)
+				c.Encrypt(got, key)
+				if !bytes.Equal(got, want) {
+					t.Fatalf("NewCipher(%q): Encrypt differs from GM/T 0002 under these 16 bytes", key)
+				}
+				R.Case(true, hx.HashKey("keylen", n, name), "goodkeylen")
+				continue
+			}
+			if err == nil || c != nil {
+				t.Fatalf("NewCipher accepted a %d-byte key (%s fill %q) (err=%v, block=%v)", n, name, key, err, c)
+			}
+			// the mode helpers take the same keys
+			for hn, h := range map[string]func([]byte, []byte, bool) ([]byte, error){"ecb": sm4.Sm4Ecb, "cbc": sm4.Sm4Cbc, "cfb": sm4.Sm4CFB, "ofb": sm4.Sm4OFB} {
+				var out []byte
+				if p := hx.Try(func() { out, err = h(key, []byte("sixteen byte msg"), true) }); p != nil {
+					t.Fatalf("%s helper panicked on a %d-byte key: %v", hn, n, p.Val)
+				}
+				if err == nil || out != nil {
+					t.Fatalf("the %s helper accepted a %d-byte key (%s fill %q)", hn, n, name, key)
+				}
+			}
+			R.Case(true, hx.HashKey("keylen", n, name), "badkeylen")
+		}
+	}
+	R.Subspace("key lengths 0..64 x 7 kinds of content (binary patterns, hexadecimal / base64 / decimal text), NewCipher and the four mode helpers", cnt, true)
 }
 
 func TestC05_Replay(t *testing.T) {
